@@ -73,7 +73,7 @@ func (s *succSummary) computeWrapper(w *ssa.Function, depth int) bool {
 		return false
 	}
 	for _, ret := range rets {
-		if ei >= 0 && ei < len(ret.Results) && (definitelyNonNilError(ret.Results[ei]) || nonNilByGuard(w, ret, ret.Results[ei])) {
+		if ei >= 0 && ei < len(ret.Results) && (definitelyNonNilError(retVal(ret, ei)) || nonNilByGuard(w, ret, retVal(ret, ei))) {
 			continue
 		}
 		ok := false
@@ -124,10 +124,10 @@ func orderedAfterSuccess(fn *ssa.Function, a *ssa.Call, to ssa.Instruction, errI
 		return true
 	}
 	if ret, ok := to.(*ssa.Return); ok && errIdx >= 0 && errIdx < len(ret.Results) {
-		if vals := errValuesOfCall(a); vals != nil && vals[ret.Results[errIdx]] {
+		if vals := errValuesOfCall(a); vals != nil && vals[retVal(ret, errIdx)] {
 			// the return passes a's error on; paths on which an unrelated nil is
 			// returned after a failed would need the φ to have a nil-const edge
-			if ph, ok := ret.Results[errIdx].(*ssa.Phi); ok {
+			if ph, ok := retVal(ret, errIdx).(*ssa.Phi); ok {
 				for _, e := range ph.Edges {
 					if isNilConst(e) {
 						return false
